@@ -416,27 +416,52 @@ def _exec_ctx(bi, block, emit):
         return
     emit({'b': bi, 's': -1, 'kind': 'ENTER', 'outcome': ('ok', 'entered'), 'pre': pre, 'post': fingerprint(r)})
     propagate = block.get('exit') == 'propagate'
+    nested_seen = False
     try:
         with r:
             for si, step in enumerate(steps):
                 sk = step['k']
                 if sk == 'ADD':
                     register(step['tok'], step['pos'], rid, r)
+                elif sk == 'NEST':
+                    # another renderer's context opened and closed while this one is still active. The tree ties
+                    # parsing to ONE active renderer, so outputs produced while nested (and by the outer renderer
+                    # afterwards) are outside the property and are not compared; what IS asserted is the property's
+                    # second sentence, literally: after a renderer's context exits the token sets are the defaults.
+                    nested_seen = True
+                    _exec_nested(bi, si, step, emit)
                 elif sk == 'RENDER':
                     pre = fingerprint(r)
                     caught = []
 
+                    phase = ['parse']
+
                     def do():
                         try:
-                            return r.render(mistletoe.Document(step['doc']))
+                            d = mistletoe.Document(step['doc'])
+                            phase[0] = 'render'
+                            return r.render(d)
                         except Exception as e:
                             caught.append(e)
                             raise
                     out = _outcome(do, step.get('reclimit'))
-                    emit({'b': bi, 's': si, 'kind': 'RENDER', 'outcome': out, 'pre': pre, 'post': fingerprint(r)})
+                    rec = {'b': bi, 's': si, 'kind': 'RENDER', 'outcome': out, 'pre': pre, 'post': fingerprint(r)}
+                    if out[0] == 'exc':
+                        rec['phase'] = phase[0]
+                    if nested_seen:
+                        rec['nocompare'] = True
+                    emit(rec)
                     if out[0] == 'exc' and propagate and si == len(steps) - 1:
                         # let the exception unwind the with-block, as a caller without try/except would
                         raise caught[0]
+                elif sk == 'TOC':
+                    # TocRenderer's documented second product: the table of contents of what this instance rendered
+                    pre = fingerprint(r)
+                    out = _outcome(lambda: r.render(r.toc))
+                    rec = {'b': bi, 's': si, 'kind': 'TOC', 'outcome': out, 'pre': pre, 'post': fingerprint(r)}
+                    if nested_seen:
+                        rec['nocompare'] = True
+                    emit(rec)
                 else:
                     raise core.HarnessError('unknown step kind %r' % (sk,))
     except core.HarnessError:
@@ -446,13 +471,60 @@ def _exec_ctx(bi, block, emit):
             raise
 
 
+def _exec_nested(bi, si, step, emit):
+    cls = renderer_class(step['R']) if step['R'] != 'Scheme' else sys.modules['mistletoe.contrib.scheme'].Scheme
+    pre = fingerprint()
+    try:
+        inner = cls(**(step.get('opts') or {}))
+    except Exception as e:
+        emit({'b': bi, 's': si, 'kind': 'NEST-ENTER', 'outcome': core.norm_exc(e), 'pre': pre, 'post': fingerprint(),
+              'nocompare': True})
+        return
+    try:
+        with inner:
+            for doc in step.get('docs') or []:
+                if step['R'] == 'Scheme':
+                    out = _outcome(lambda: repr(inner.render(sys.modules['mistletoe.contrib.scheme'].Program([doc]))))
+                else:
+                    out = _outcome(lambda: inner.render(mistletoe.Document(doc)))
+                emit({'b': bi, 's': si, 'kind': 'NEST-RENDER', 'outcome': out, 'pre': pre, 'post': fingerprint(inner),
+                      'nocompare': True})
+    except Exception:
+        pass
+    fp = fingerprint()
+    emit({'b': bi, 's': si, 'kind': 'EXIT', 'outcome': ('ok', [fp['block_types'], fp['span_types']]), 'pre': fp, 'post': fp})
+
+
 # ---------------------------------------------------------------------------------------------
 # oracle keys: the one-operation history whose outcome in a pristine process is the expected outcome
 
-def oracle_history(history, rec):
-    """For an observation record of `history`, the minimal history that a fresh interpreter would run."""
+def oracle_history(history, rec, records=None):
+    """For an observation record of `history`, the minimal history that a fresh interpreter would run.
+    Returns None when the observation has no history-free reference (then it is not compared)."""
     block = history[rec['b']]
     kind = rec['kind']
+    if kind == 'TOC':
+        # The table of contents is by design a function of every document this instance rendered. Reference: a pristine
+        # process in which the same instance renders the same documents, minus those whose PARSE raised (they never reached
+        # the renderer and contribute nothing). Documents that raised while rendering are kept (headings rendered before the
+        # exception are legitimately listed). No reference if a step ran under a lowered recursion limit.
+        outcomes = {r['s']: r for r in (records or []) if r['b'] == rec['b'] and r['kind'] == 'RENDER'}
+        steps = []
+        for si, st in enumerate(block['steps'][:rec['s']]):
+            if st['k'] == 'ADD':
+                steps.append(st)
+            elif st['k'] == 'RENDER':
+                if st.get('reclimit') or si not in outcomes:
+                    return None
+                o = outcomes[si]
+                if o['outcome'][0] == 'exc' and o.get('phase') == 'parse':
+                    continue
+                steps.append(st)
+            elif st['k'] == 'TOC':
+                continue
+            else:
+                return None
+        return [{'k': 'CTX', 'R': block['R'], 'opts': block.get('opts') or {}, 'exit': 'normal', 'steps': steps + [{'k': 'TOC'}]}]
     if kind in ('MD', 'BARE', 'SCHEME'):
         return [dict(block)]
     if kind == 'ENTER':
